@@ -153,14 +153,23 @@ def BTerm.mkNot : BTerm → BTerm
   | .lit b => .lit (!b)
   | .not b => b
   | b => .not b
+/-! comparisons of a difference with zero are comparisons of its operands (`a - b < 0 ⇔ a < b` on
+unbounded integers): the volume bookkeeping of the matching loop then asks questions about the
+volumes themselves, which the path pruning can relate to what was asked before -/
 def BTerm.mkIlt : ITerm → ITerm → BTerm
   | .lit a, .lit b => .lit (decide (a < b))
+  | .sub a b, .lit 0 => if a = b then .lit false else .ilt a b
+  | .lit 0, .sub a b => if a = b then .lit false else .ilt b a
   | a, b => if a = b then .lit false else .ilt a b
 def BTerm.mkIle : ITerm → ITerm → BTerm
   | .lit a, .lit b => .lit (decide (a ≤ b))
+  | .sub a b, .lit 0 => if a = b then .lit true else .ile a b
+  | .lit 0, .sub a b => if a = b then .lit true else .ile b a
   | a, b => if a = b then .lit true else .ile a b
 def BTerm.mkIeq : ITerm → ITerm → BTerm
   | .lit a, .lit b => .lit (decide (a = b))
+  | .sub a b, .lit 0 => if a = b then .lit true else .ieq a b
+  | .lit 0, .sub a b => if a = b then .lit true else .ieq a b
   | a, b => if a = b then .lit true else .ieq a b
 
 /-! ### decision trees -/
@@ -271,41 +280,46 @@ theorem lookupB_sound {K : Type} [PyNum K] (hrefl : ∀ x : K, PyNum.beq x x = t
       subst hc; subst h; exact this
     · exact lookupB_sound hrefl ρ d rest b (fun kb hkb => hk kb (List.mem_cons_of_mem _ hkb)) h
 
-/-- root-to-leaf paths that are not syntactically contradictory; `known`: the positive conditions
-decided so far with their values -/
-def pathsP (known : List (BTerm × Bool)) : Tree α → List (List (BTerm × Bool) × α)
+/-- root-to-leaf paths pruned by a decision function `dec known c` ("is `c` already decided by the
+conditions `known` of this path?"); `known`: the positive conditions decided so far with their values.
+A decided node is not a choice point: only the consistent branch is followed (and the other one is
+never evaluated). -/
+def pathsD (dec : List (BTerm × Bool) → BTerm → Option Bool) (known : List (BTerm × Bool)) :
+    Tree α → List (List (BTerm × Bool) × α)
   | leaf a => [([], a)]
   | node c t f =>
-    match lookupB c.core.1 known with
-    | some b => if (b ^^ c.core.2) then (t ()).pathsP known else (f ()).pathsP known
+    match dec known c.core.1 with
+    | some b => if (b ^^ c.core.2) then (t ()).pathsD dec known else (f ()).pathsD dec known
     | none =>
-      ((t ()).pathsP ((c.core.1, !c.core.2) :: known)).map (fun p => ((c, true) :: p.1, p.2)) ++
-      ((f ()).pathsP ((c.core.1, c.core.2) :: known)).map (fun p => ((c, false) :: p.1, p.2))
+      ((t ()).pathsD dec ((c.core.1, !c.core.2) :: known)).map (fun p => ((c, true) :: p.1, p.2)) ++
+      ((f ()).pathsD dec ((c.core.1, c.core.2) :: known)).map (fun p => ((c, false) :: p.1, p.2))
 
-/-- soundness of the pruned enumeration -/
-theorem denote_of_pathsP {K : Type} [PyNum K] (hrefl : ∀ x : K, PyNum.beq x x = true) (ρ : Rho K) (Q : α → Prop) :
+/-- soundness of the pruned enumeration, for any decision function that is sound under `ρ` -/
+theorem denote_of_pathsD {K : Type} [PyNum K] (ρ : Rho K) (dec : List (BTerm × Bool) → BTerm → Option Bool)
+    (hdec : ∀ (known : List (BTerm × Bool)) (d : BTerm) (b : Bool), (∀ kb ∈ known, kb.1.eval ρ = kb.2) →
+      dec known d = some b → d.eval ρ = b) (Q : α → Prop) :
     ∀ (t : Tree α) (known : List (BTerm × Bool)), (∀ kb ∈ known, kb.1.eval ρ = kb.2) →
-      (∀ p ∈ t.pathsP known, (∀ cb ∈ p.1, cb.1.eval ρ = cb.2) → Q p.2) → Q (t.denote ρ)
+      (∀ p ∈ t.pathsD dec known, (∀ cb ∈ p.1, cb.1.eval ρ = cb.2) → Q p.2) → Q (t.denote ρ)
   | leaf a, _, _, h => by
-    simpa [denote] using h ([], a) (by simp [pathsP]) (by simp)
+    simpa [denote] using h ([], a) (by simp [pathsD]) (by simp)
   | node c t f, known, hk, h => by
     have hce := BTerm.core_eval ρ c
-    unfold pathsP at h
+    unfold pathsD at h
     unfold denote
     split at h
     · rename_i b hb
-      have hd := lookupB_sound hrefl ρ c.core.1 known b hk hb
+      have hd := hdec known c.core.1 b hk hb
       have hcv : c.eval ρ = (b ^^ c.core.2) := by rw [hce, hd]
       by_cases hx : (b ^^ c.core.2) = true
       · rw [if_pos hx] at h
         rw [if_pos (by rw [hcv]; exact hx)]
-        exact denote_of_pathsP hrefl ρ Q (t ()) known hk h
+        exact denote_of_pathsD ρ dec hdec Q (t ()) known hk h
       · rw [if_neg hx] at h
         rw [if_neg (by rw [hcv]; exact hx)]
-        exact denote_of_pathsP hrefl ρ Q (f ()) known hk h
+        exact denote_of_pathsD ρ dec hdec Q (f ()) known hk h
     · by_cases hc : c.eval ρ = true
       · rw [if_pos hc]
-        refine denote_of_pathsP hrefl ρ Q (t ()) ((c.core.1, !c.core.2) :: known) ?_ ?_
+        refine denote_of_pathsD ρ dec hdec Q (t ()) ((c.core.1, !c.core.2) :: known) ?_ ?_
         · intro kb hkb
           rcases List.mem_cons.1 hkb with rfl | hkb
           · simp only
@@ -322,7 +336,7 @@ theorem denote_of_pathsP {K : Type} [PyNum K] (hrefl : ∀ x : K, PyNum.beq x x 
             · exact hq cb hcb
       · rw [if_neg hc]
         have hc' : c.eval ρ = false := by simpa using hc
-        refine denote_of_pathsP hrefl ρ Q (f ()) ((c.core.1, c.core.2) :: known) ?_ ?_
+        refine denote_of_pathsD ρ dec hdec Q (f ()) ((c.core.1, c.core.2) :: known) ?_ ?_
         · intro kb hkb
           rcases List.mem_cons.1 hkb with rfl | hkb
           · simp only
@@ -337,6 +351,17 @@ theorem denote_of_pathsP {K : Type} [PyNum K] (hrefl : ∀ x : K, PyNum.beq x x 
             rcases List.mem_cons.1 hcb with rfl | hcb
             · exact hc'
             · exact hq cb hcb
+
+/-- root-to-leaf paths that are not *syntactically* contradictory (decision: the same condition, up to
+negations, occurred before; `x == x` on floats) -/
+def pathsP (known : List (BTerm × Bool)) (t : Tree α) : List (List (BTerm × Bool) × α) :=
+  t.pathsD (fun k d => lookupB d k) known
+
+theorem denote_of_pathsP {K : Type} [PyNum K] (hrefl : ∀ x : K, PyNum.beq x x = true) (ρ : Rho K) (Q : α → Prop)
+    (t : Tree α) (known : List (BTerm × Bool)) (hk : ∀ kb ∈ known, kb.1.eval ρ = kb.2)
+    (h : ∀ p ∈ t.pathsP known, (∀ cb ∈ p.1, cb.1.eval ρ = cb.2) → Q p.2) : Q (t.denote ρ) :=
+  denote_of_pathsD ρ (fun k d => lookupB d k)
+    (fun known d b hk hb => lookupB_sound hrefl ρ d known b hk hb) Q t known hk h
 
 end Tree
 
